@@ -297,6 +297,7 @@ def run_check(prop, tier, seed, spec, work, t0):
                 inconclusive.append(f"native replay for {rel} failed: {e}")
             native_s += time.time() - t1
     confirmed = []
+    engine_only_confirmed = set()
     for cid, (exp, obs, pkg, entry, w) in expect.items():
         if spec.get("no_native"):
             continue
@@ -330,6 +331,13 @@ def run_check(prop, tier, seed, spec, work, t0):
                 if obs[:n] != nobs[:n]:
                     inconclusive.append(f"translator validation: {cid} (violation) observations differ")
                 confirmed.append(cid)
+            elif kind == "assert" and outc == "pass" and nobs == obs and any(exp.split(":", 1)[1].startswith(p) for p in spec.get("engine_only_labels", [])):
+                # the assertion is over an observable that does not exist in the native build (liveness of
+                # timers / goroutines: the native stubs return -1 and the harness skips the assertion there).
+                # The native run of the same inputs agrees with the engine on every other assertion and on
+                # all observations; the violation is reported on the engine's authority and marked so.
+                confirmed.append(cid)
+                engine_only_confirmed.add(cid)
             else:
                 inconclusive.append(f"counterexample {cid} ({exp}) does not reproduce natively (native outcome: {outc})")
 
@@ -352,7 +360,9 @@ def run_check(prop, tier, seed, spec, work, t0):
         fn = os.path.join(rdir, re.sub(r"[^A-Za-z0-9_.-]+", "_", key)[:120] + ".json")
         case = case_of(rec["pkg"], rec["entry"], rec["v"]["Witness"], rec["cid"])
         json.dump({"property": prop, "key": key, "pkg": rec["pkg"], "where": rec["v"]["Where"], "expect": rec["v"]["Witness"].get("Expect"),
-                   "case": case, "observations": rec["v"]["Witness"].get("Obs")}, open(fn, "w"), indent=1)
+                   "case": case, "observations": rec["v"]["Witness"].get("Obs"),
+                   "confirmation": ("engine only: the asserted observable does not exist in the native build; all other assertions and observations of the native replay agree"
+                                    if rec["cid"] in engine_only_confirmed else "reproduced natively")}, open(fn, "w"), indent=1)
         lines.append(f"VIOLATION property={prop} replay={fn}")
         log(f"  violation {key} ({rec['count']} paths) at {rec['v']['Where'][:200]}")
     wall = time.time() - t0
